@@ -677,6 +677,7 @@ func (w *Worker) unop(instr *ssa.UnOp, x value) value {
 	if p, ok := x.(poison); ok && instr.Op != token.MUL {
 		return p
 	}
+	_ = 0
 	switch instr.Op {
 	case token.ARROW:
 		ch, _ := x.(*chanv)
@@ -712,6 +713,9 @@ func (w *Worker) unop(instr *ssa.UnOp, x value) value {
 			return -x
 		}
 	case token.MUL:
+		if po, ok := x.(poison); ok {
+			unsupported("dereference of poison pointer: %s", po.why)
+		}
 		p := x.(*value)
 		if p == nil {
 			panic(targetPanic{v: runtimeErr("invalid memory address or nil pointer dereference")})
